@@ -1187,6 +1187,22 @@ func (c *SpecCtx) evalCall(x SCall) Val {
 		}
 		return c.f.en.mkVal(t, app(c.f.en.u.mkName(si), ts...))
 	}
+	if x.Fn == "addr" { // addr(x): the address of the local variable x (a variable whose address is taken)
+		if id, ok := x.Args[0].(SIdent); ok && c.f != nil {
+			var keys []ssa.Value
+			for v := range c.f.env {
+				keys = append(keys, v)
+			}
+			sort.Slice(keys, func(i, j int) bool { return keys[i].Name() < keys[j].Name() })
+			for _, v := range keys {
+				if a, ok := v.(*ssa.Alloc); ok && a.Comment == id.Name {
+					return c.f.env[v]
+				}
+			}
+		}
+		c.errorf("addr: no addressable local %s", x.Args[0])
+		return Val{S: "Ptr", E: nilPtr}
+	}
 	if x.Fn == "defined" { // defined(name): the local name is in scope at the evaluation point
 		if id, ok := x.Args[0].(SIdent); ok && c.f != nil {
 			if _, bound := c.binds[id.Name]; bound {
